@@ -602,4 +602,159 @@ def rule_option(ctx):
     return r
 
 
-RULES = [rule_combine, rule_pair, rule_adder, rule_rescale, rule_scale, rule_option]
+# ------------------------------------------------------------------ FRESH
+
+VIEW_OPS = {"transpose", "reshape", "ravel", "squeeze", "expand_dims", "swapaxes", "moveaxis",
+            "diagonal", "asarray", "array", "real", "imag", "conj", "broadcast_to", "view", "T"}
+INPLACE_METHODS = {"fill", "sort", "resize", "put", "itemset", "partition", "setfield", "clip_",
+                   "mul_", "div_", "add_", "sub_", "copy_", "zero_", "fill_"}
+
+
+def rule_fresh(ctx):
+    """The per-step normalisation (and anything else in the executor) never writes into storage
+    that may be shared with the caller's arrays: inputs are reused by every slice and every later
+    call, so an in-place rescale of something that can be a *view* of an input (single-operand
+    einsum: diagonal / transposition; transpose, reshape) silently rescales the input itself and
+    the next slice strips a factor that was already divided out."""
+    r = RuleResult("C19-FRESH", "no in-place operation on values that may alias the input arrays", 1)
+    m = ctx.p.module(C.CONTRACT)
+    for f in m.all_funcs:
+        if f.vararg != "arrays" and "arrays" not in f.params:
+            continue
+        if f.name not in ("__call__",):
+            continue
+        fl = ctx.flow(f)
+        parents = f.module.parents
+        src = f.vararg or "arrays"
+        # pools: containers filled from the inputs
+        pools = set()
+        for n in walk_local(f.node):
+            if isinstance(n, ast.Assign) and len(n.targets) == 1 and isinstance(n.targets[0], ast.Name):
+                if any(isinstance(x, ast.Name) and x.id == src for x in ast.walk(n.value)) and \
+                        (isinstance(n.value, (ast.DictComp, ast.ListComp, ast.Dict, ast.List, ast.Tuple))
+                         or (isinstance(n.value, ast.Call) and dotted(n.value.func) in ("dict", "list", "tuple"))):
+                    pools.add(n.targets[0].id)
+        memo = {}
+
+        def kind(e, at, depth=0):
+            """'alias' | 'fresh' | 'other'"""
+            if depth > 8:
+                return "alias"
+            if isinstance(e, ast.Name):
+                if e.id == src:
+                    return "alias"
+                defs = [d for d in fl.defs_reaching(e.id, at) if d.kind in ("assign", "aug", "iter", "with")]
+                ks = set()
+                for d in defs:
+                    key = (id(d), )
+                    if key in memo:
+                        ks.add(memo[key])
+                        continue
+                    memo[key] = "other"
+                    if d.kind == "aug":
+                        k = "fresh"
+                    elif d.value is None:
+                        k = "other"
+                    elif d.index is not None:
+                        k = "alias" if any(isinstance(x, ast.Name) and (x.id in pools or x.id == src)
+                                           for x in ast.walk(d.value)) else "other"
+                    else:
+                        k = kind(d.value, d.node, depth + 1)
+                    memo[key] = k
+                    ks.add(k)
+                if "alias" in ks:
+                    return "alias"
+                if "fresh" in ks:
+                    return "fresh"
+                return "other"
+            if isinstance(e, ast.Subscript):
+                b = e.value
+                if isinstance(b, ast.Name) and (b.id in pools or b.id == src):
+                    return "alias"
+                return kind(b, at, depth + 1)  # slicing gives a view
+            if isinstance(e, ast.Attribute):
+                if e.attr in VIEW_OPS:
+                    return kind(e.value, at, depth + 1)
+                return "other"
+            if isinstance(e, ast.Call):
+                fn = e.func
+                if isinstance(fn, ast.Attribute) and isinstance(fn.value, ast.Name) and \
+                        (fn.value.id in pools) and fn.attr in ("pop", "get", "popitem"):
+                    return "alias"
+                args = list(e.args) + [k.value for k in e.keywords if k.arg not in ("like", "out")]
+                aks = [kind(a, at, depth + 1) for a in args]
+                arrs = [k for k in aks if k in ("alias", "fresh")]
+                recv = None
+                if isinstance(fn, ast.Attribute):
+                    recv = kind(fn.value, at, depth + 1)
+                    if recv in ("alias", "fresh"):
+                        if fn.attr in VIEW_OPS:
+                            return recv
+                        if fn.attr == "copy":
+                            return "fresh"
+                        arrs = arrs + [recv]
+                if len(arrs) >= 2:
+                    return "fresh"
+                if len(arrs) == 1:
+                    # one array operand: the result may be a view of it (single-operand einsum,
+                    # transpose/reshape through a dispatcher); reductions give scalars, which is
+                    # harmless to over-approximate
+                    name = (dotted(fn) or "").split(".")[-1]
+                    strs = [a.value for a in e.args if isinstance(a, ast.Constant) and isinstance(a.value, str)]
+                    if name == "do" and strs and strs[0] not in VIEW_OPS and strs[0] != "einsum":
+                        return "fresh"
+                    if name in ("copy", "deepcopy", "abs", "max", "log10", "float", "array_copy"):
+                        return "fresh"
+                    return arrs[0]
+                return "other"
+            if isinstance(e, ast.BinOp):
+                ks = {kind(e.left, at, depth + 1), kind(e.right, at, depth + 1)}
+                return "fresh" if ks & {"alias", "fresh"} else "other"
+            if isinstance(e, ast.IfExp):
+                ks = {kind(e.body, at, depth + 1), kind(e.orelse, at, depth + 1)}
+                return "alias" if "alias" in ks else ("fresh" if "fresh" in ks else "other")
+            return "other"
+
+        n_sites = 0
+        bad = []
+        for n in fl.cfg.nodes:
+            st = n.ast
+            if n.kind != "stmt" or st is None:
+                continue
+            if isinstance(st, ast.AugAssign) and isinstance(st.target, ast.Name):
+                k = kind(ast.Name(id=st.target.id, ctx=ast.Load()), n.id)
+                if k in ("alias", "fresh"):
+                    n_sites += 1
+                if k == "alias":
+                    bad.append((st, f"`{C.unparse(st, 50)}` operates in place on a value that may be a view "
+                                    f"of one of the caller's arrays"))
+            elif isinstance(st, (ast.Assign, ast.AugAssign)):
+                tgts = st.targets if isinstance(st, ast.Assign) else [st.target]
+                for t in tgts:
+                    if isinstance(t, ast.Subscript) and isinstance(t.value, ast.Name) and \
+                            t.value.id not in pools:
+                        k = kind(t.value, n.id)
+                        if k in ("alias", "fresh"):
+                            n_sites += 1
+                        if k == "alias":
+                            bad.append((st, f"`{C.unparse(st, 50)}` writes into a value that may be a view of "
+                                            f"one of the caller's arrays"))
+            for c in fl.own_nodes(n, (ast.Call,)) if hasattr(fl, "own_nodes") else []:
+                for kw in c.keywords:
+                    if kw.arg == "out" and kind(kw.value, n.id) == "alias":
+                        bad.append((st, f"`out={C.unparse(kw.value, 30)}` targets a value that may alias an input"))
+                if isinstance(c.func, ast.Attribute) and c.func.attr in INPLACE_METHODS and \
+                        kind(c.func.value, n.id) == "alias":
+                    bad.append((st, f"`{C.unparse(c, 50)}` mutates a value that may alias an input"))
+        key = ctx.key(f, "C19-FRESH")
+        if bad:
+            for st, why in bad:
+                r.violation(key, C.loc(f, st), why + ": the input is reused by every other slice and "
+                            "later call, which then see it already rescaled")
+        else:
+            r.ok(key, f.loc, f"no in-place write reaches storage shared with the inputs "
+                 f"({n_sites} in-place site(s) on fresh intermediates, pools {sorted(pools)})")
+    return r
+
+
+RULES = [rule_combine, rule_pair, rule_adder, rule_rescale, rule_scale, rule_option, rule_fresh]
